@@ -1102,9 +1102,78 @@ def _x8_fold_fresh_object(fn):
     return fn
 
 
+def _x8_unroll_for_else(fn, globs):
+    """N10 (x8): `for x in <constant tuple>: if c(x): B(x); break` + `else: E` is the chain
+    `if c(k1): B(k1) elif c(k2): B(k2) … else: E` — the loop over a short tuple of str / int constants (a display, or a
+    module-level tuple no local shadows) is unrolled when its body is that single `if` ending in `break`, `B` holds no other
+    `break` / `continue`, and the loop variable is a plain name used only inside the loop and never rebound there."""
+    import copy
+    caller_locals = {n for s_ in _walk_scope(fn.body) for n in _targets_of(s_)} | {a.arg for a in fn.args.args + fn.args.kwonlyargs}
+    for_targets = {}
+    for n in ast.walk(fn):
+        if isinstance(n, (ast.For, ast.comprehension)):
+            for t in ast.walk(n.target):
+                if isinstance(t, ast.Name):
+                    for_targets[t.id] = for_targets.get(t.id, 0) + 1
+
+    def constants(it):
+        if isinstance(it, ast.Tuple) and all(isinstance(x, ast.Constant) for x in it.elts):
+            vals = [x.value for x in it.elts]
+        elif isinstance(it, ast.Name) and it.id not in caller_locals and it.id not in for_targets \
+                and isinstance((globs or {}).get(it.id), tuple):
+            vals = list(globs[it.id])
+        else:
+            return None
+        if not 1 <= len(vals) <= 8 or not all(type(v) in (str, int) for v in vals):
+            return None
+        return vals
+
+    def unroll(st):
+        if not (isinstance(st, ast.For) and st.orelse and isinstance(st.target, ast.Name) and len(st.body) == 1
+                and isinstance(st.body[0], ast.If) and not st.body[0].orelse and st.body[0].body
+                and isinstance(st.body[0].body[-1], ast.Break)):
+            return None
+        x = st.target.id
+        vals = constants(st.iter)
+        inner = st.body[0]
+        B = inner.body[:-1]
+        if vals is None or not B or x in caller_locals or for_targets.get(x, 0) != 1:
+            return None
+        if any(isinstance(n, (ast.Break, ast.Continue, ast.Return.__class__)) and isinstance(n, (ast.Break, ast.Continue))
+               for b in B for n in ast.walk(b)):
+            return None
+        inside = {id(n) for n in ast.walk(st)}
+        if any(isinstance(n, ast.Name) and n.id == x and id(n) not in inside for n in ast.walk(fn)):
+            return None
+        chain = list(st.orelse)
+        for v in reversed(vals):
+            ren = _Renamer({x: ast.Constant(value=v)})
+            chain = [ast.copy_location(ast.If(test=ren.visit(copy.deepcopy(inner.test)),
+                                              body=[ren.visit(copy.deepcopy(b)) for b in B], orelse=chain), st)]
+        for n in ast.walk(chain[0]):
+            if not hasattr(n, "lineno"):
+                ast.copy_location(n, st)
+        return chain
+
+    def walk(stmts):
+        out = []
+        for st in stmts:
+            for fld in ("body", "orelse", "finalbody"):
+                if isinstance(getattr(st, fld, None), list) and not isinstance(st, (ast.FunctionDef, ast.ClassDef)):
+                    setattr(st, fld, walk(getattr(st, fld)))
+            for h in getattr(st, "handlers", []) or []:
+                h.body = walk(h.body)
+            rep = unroll(st)
+            out.extend(rep if rep is not None else [st])
+        return out
+    fn.body = walk(fn.body)
+    return fn
+
+
 def x4_normalise(fn, globs=None, owner=None):
     if globs is not None:
         fn = _inline_helpers(fn, globs, owner=owner)
+        fn = _x8_unroll_for_else(fn, globs)              # x8: N10
     fn = _X4Normaliser(fn).visit(fn)
     fn = _x8_fold_fresh_object(fn)                       # x8: N8
     ast.fix_missing_locations(fn)
@@ -2732,6 +2801,14 @@ class Fn:
         pat = self.globals[f.value.id]
         key = (self.pyfunc.__module__, f.value.id)
         import re as _re
+        # x8: the project-name test of `parse_wheel_filename` through a precompiled pattern: names.py measures the one
+        # pattern call of that function that is neither an inline literal nor a pattern measured on its own
+        if f.attr in ("fullmatch", "match") and len(e.args) == 1 and key not in MEASURED_PATTERNS \
+                and _registered_regex(pat) is None \
+                and (self.pyfunc.__module__, self.pyfunc.__qualname__) in MEASURED_INLINE:
+            flag, targs = MEASURED_INLINE[(self.pyfunc.__module__, self.pyfunc.__qualname__)]
+            self.ctx.imports.add("PkgModel.PyRx")
+            return False, f"PyRx.match_class_star {flag} {targs} {self.val(e.args[0])}"
         if f.attr in ("match", "search") and len(e.args) == 1:
             name = _registered_regex(pat)
             if name is not None and not (pat.flags & _re.MULTILINE):
